@@ -1,6 +1,6 @@
 (* Property C10 -- no client input can crash a handler or wedge the node *)
 (* Statements only: each theorem restates the proved lemma's statement and is closed by [exact]. *)
-From NunDB Require Import Model.Base Model.Pending Model.Parse Model.Node Proofs.GuardProofs.
+From NunDB Require Import Model.Base Model.Pending Model.Parse Model.Node Proofs.GuardProofs Model.Cluster Model.Net Proofs.NetProofs.
 Local Open Scope Z_scope.
 
 (* the parser never reaches a panicking path, for every byte string *)
@@ -63,3 +63,60 @@ Theorem C10_admin_inv_needed :
   snd (step no_admin_node 0 "create-db x t") = RPanic.
 Proof. exact no_admin_panics. Qed.
 Print Assumptions C10_admin_inv_needed.
+
+(* no line read by the TCP loop, whatever its bytes, ends the connection's thread *)
+Theorem C10_tcp_line_serving :
+  forall (n : node) (c : nat) (line : str), AdminInv n -> snd (tcp_line n c line) = Serving.
+Proof. exact tcp_line_serving. Qed.
+Print Assumptions C10_tcp_line_serving.
+
+(* a TCP line that is not UTF-8 is dropped: the node does not change *)
+Theorem C10_tcp_line_invalid :
+  forall (n : node) (c : nat) (line : str), utf8_valid line = false -> tcp_line n c line = (n, Serving).
+Proof. exact tcp_line_invalid. Qed.
+Print Assumptions C10_tcp_line_invalid.
+
+(* no WebSocket frame (text or binary, any bytes, any number of ';') ends the WebSocket event loop *)
+Theorem C10_ws_frame_serving :
+  forall (n : node) (c : nat) (payload : str), AdminInv n -> snd (ws_frame n c payload) = Serving.
+Proof. exact ws_frame_serving. Qed.
+Print Assumptions C10_ws_frame_serving.
+
+(* a binary frame that is not UTF-8 is answered with one error (it used to end the listener for every client) *)
+Theorem C10_ws_frame_invalid :
+  forall (n : node) (c : nat) (payload : str),
+         utf8_valid payload = false ->
+         ws_frame n c payload = (send n c ("error Invalid message " +++ nlS), Serving).
+Proof. exact ws_frame_invalid. Qed.
+Print Assumptions C10_ws_frame_invalid.
+
+(* no HTTP body, UTF-8 or not, ends an HTTP worker *)
+Theorem C10_http_bytes_worker_survives :
+  forall (n : node) (body : str), AdminInv n -> snd (http_bytes n body) <> None.
+Proof. exact http_bytes_worker_survives. Qed.
+Print Assumptions C10_http_bytes_worker_survives.
+
+(* whatever arrives over the three transports, in any order, on any connections: every service thread is alive afterwards *)
+Theorem C10_net_run_from_init :
+  forall (u p a : str) (pid : N) (r : role) (c0 : N) (evs : list net_ev),
+         snd (net_run (init_node u p a pid r c0) evs) = true.
+Proof. exact net_run_from_init. Qed.
+Print Assumptions C10_net_run_from_init.
+
+(* and the next command from any connection is answered *)
+Theorem C10_net_run_then_step :
+  forall (u p a : str) (pid : N) (r : role) (c0 : N) (evs : list net_ev) (c : nat) (line : str),
+         snd (step (fst (net_run (init_node u p a pid r c0) evs)) c line) <> RPanic.
+Proof. exact net_run_then_step. Qed.
+Print Assumptions C10_net_run_then_step.
+
+(* the replication thread survives every queued line (it used to panic on lines it could not parse or log) *)
+Theorem C10_repl_one_survives :
+  forall (x : cnode) (msg : str), cn_dead x = false -> cn_dead (repl_one x msg) = false.
+Proof. exact repl_one_survives. Qed.
+Print Assumptions C10_repl_one_survives.
+
+Theorem C10_poll_repl_survives :
+  forall x : cnode, cn_dead x = false -> cn_dead (poll_repl x) = false.
+Proof. exact poll_repl_survives. Qed.
+Print Assumptions C10_poll_repl_survives.
